@@ -552,14 +552,10 @@ MANIFEST = {
     "design_ref": "DESIGN.md 4/C14",
 }
 FINDINGS = [
-<<<<<<< HEAD
-    {"status": "fixed", "key": "fails-outright:exists_elim:AttributeError:'NoneType'_object_has_no", "commit": "793f072",
-=======
     {"status": "fixed", "key": "advertised-goal-step-not-justified:apply_backward_step", "commit": "7a9753d",
      "what": "apply_backward_step someI with fact 0.2.2 on logic_base.exists_thm (goal 0.2.3 `P (Some P)`) was suggested as solving but "
              "replaced the goal by `P (SOME x1. P x1)` (equal only up to eta); the state no longer re-checked"},
     {"status": "fixed", "key": "fails-outright:exists_elim:AttributeError:'NoneType'_object_has_no", "commit": "793f072",
->>>>>>> c13b
      "what": "exists_elim suggested for a goal that is followed by a subproof line (logic.ex_conj_distrib after cases + introduction, goal 1, "
              "fact 0) failed with AttributeError: it re-created the following lines with set_line, dropping their subproofs"},
     {"status": "fixed", "key": "fails-outright:induction:IndexError:list_index_out_of", "commit": "8f46948",
